@@ -180,8 +180,8 @@ def sanitizer_reports(text):
     return len(re.findall(r"ERROR: AddressSanitizer|ERROR: LeakSanitizer|runtime error:", text))
 
 
-def run_under(env, name, text, build, wrapper=None, extra_env=None, timeout=None):
-    res = env.drive(name, text, build=build, wrapper=wrapper, extra_env=extra_env, timeout=timeout)
+def run_under(env, name, text, build, wrapper=None, extra_env=None, timeout=None, sched="seq"):
+    res = env.drive(name, text, build=build, wrapper=wrapper, extra_env=extra_env, timeout=timeout, sched=sched)
     if res.timed_out:
         raise fw.Inconclusive("%s: watchdog fired" % name)
     probs = list(res.problems)
@@ -215,6 +215,10 @@ def run(env):
     text = build(env, per, huge).text()
     run_under(env, "hostile", text, "checked")
     run_under(env, "hostile", text, "fast")
+    # the same on threads with a 64 KiB stack (the unchanged library needs < 32 KiB for this workload): a call that
+    # puts a message-sized buffer on the stack kills a small-stack thread on any input, hostile or not
+    rs = run_under(env, "hostile-stack64", text, "checked", sched="stack:64")
+    env.extra_cov["small_stack_run"] = {"stack_kib": 64, "exit": rs.rc, "stack_overflow_reported": "overflowed its stack" in (rs.stderr or "")}
     # AddressSanitizer: a report makes the process exit non-zero; the cut-off event log says where
     asan_text = slice_text(text, env.seed % 4, 4) if env.quick() else text
     res = run_under(env, "hostile-asan", asan_text, "asan", extra_env={"ASAN_OPTIONS": "detect_leaks=1:halt_on_error=1:abort_on_error=0"})
